@@ -13,6 +13,7 @@ OWNERS = {
     "ReadFieldListRegister": ["C05", "C09", "C15"],
     "StreamRegisterList": ["C10"],
     "NewRegisterApi": ["C11"],
+    "CommaString": ["C15"],
 }
 
 API_THEOREMS = {
@@ -21,7 +22,8 @@ API_THEOREMS = {
             "C09_api_fieldlist_bits"],
     "C10": ["C10_api_StreamRegisterList", "C10_api_stream_product_lists"],
     "C11": ["C11_api_NewRegisterApi"],
-    "C15": ["C15_api_ReadFieldListRegister", "C15_api_fieldlist_bits"],
+    "C15": ["C15_api_ReadFieldListRegister", "C15_api_fieldlist_bits", "C15_api_CommaString", "C15_api_CommaString_deterministic",
+            "C15_api_every_map_order"],
 }
 
 OUT = os.path.join(common.GEN, "ApiImpl.v")
